@@ -10,7 +10,8 @@ Import ListNotations.
 From Verif Require Import Common.Base Model.SampleBuilder Model.SampleBuilderSpec
   Proofs.SampleBuilderArith Proofs.SampleBuilderIter Proofs.SampleBuilder
   Proofs.SampleBuilderScan Proofs.SampleBuilderBuild Proofs.SampleBuilderFuel Proofs.SampleBuilderFifo
-  Proofs.SampleBuilderNoPanic Proofs.SampleBuilderTop Proofs.SampleBuilderInside Proofs.SampleBuilderTop2.
+  Proofs.SampleBuilderNoPanic Proofs.SampleBuilderTop Proofs.SampleBuilderInside
+  Proofs.SampleBuilderOrder Proofs.SampleBuilderOnce Proofs.SampleBuilderTop2.
 Open Scope N_scope.
 
 (* ---------- uint16 / uint32 arithmetic, all values ---------- *)
@@ -286,14 +287,50 @@ Theorem c31_pops_in_build_order : forall is_head is_tail unmarshal c ops,
 Proof. exact pops_in_build_order. Qed.
 Print Assumptions c31_pops_in_build_order.
 
-(* Not proved (props planned_not_proved, exercised by the correspondence run
-   and the direct oracle on every generated history):
-     c31_in_order_partial, c31_each_packet_once_partial :
-       forall is_head is_tail unmarshal c ops, history_ok ops ->
-         fault (fst (run ... ops)) = 0 ->
-         (the buffer never drains between the first Push and the last Pop, and
-          every frame has one partition head) ->
-         in_order (snd (run ... ops)) /\ each_packet_once (snd (run ... ops)). *)
+(* Partial statements.  Their guards are predicates on the model's ghost event log
+   (Model/SampleBuilderSpec.v: log_ok, clean_log), which the history determines.
+
+   Order: as long as the head of the active window never gets 32767 or more sequence
+   numbers ahead of the end of the last built sample -- a re-anchoring that lands behind
+   the position already reached counts as a forward jump of 32768 or more, so the two
+   recorded causes are excluded, and so is half a ring of dropped or skipped packets
+   between two samples, where order modulo 2^16 means nothing -- the samples come out in
+   sequence-number order.  Every configuration, every depacketizer. *)
+Theorem c31_in_order_partial : forall is_head is_tail unmarshal c ops,
+  history_ok ops ->
+  log_ok (evlog (fst (run is_head is_tail unmarshal c ops))) ->
+  N.of_nat (List.length (built (fst (run is_head is_tail unmarshal c ops)))) < 65536 ->
+  in_order (snd (run is_head is_tail unmarshal c ops)).
+Proof. exact emitted_in_order. Qed.
+Print Assumptions c31_in_order_partial.
+
+(* Once: if the active window is never re-anchored while a packet of an already built
+   sample is still buffered (the negation of consumed-packets-rebuilt-after-active-
+   drained), no pushed packet is part of two samples.  Configurations of
+   c31_no_fault_partial (the proof needs every buffered key Inside filled).
+   The stronger statement with only "frames have one partition head" in place of
+   clean_log (so that a Flush after a frame of three or more packets is covered) is
+   not proved. *)
+Theorem c31_each_packet_once_partial : forall is_head is_tail unmarshal c ops,
+  c_maxLateTs c = 0 -> c_maxLate c <> 1 -> c_maxLate c <= 21844 ->
+  history_ok ops ->
+  clean_log (evlog (fst (run is_head is_tail unmarshal c ops))) ->
+  N.of_nat (List.length (built (fst (run is_head is_tail unmarshal c ops)))) < 65536 ->
+  each_packet_once (snd (run is_head is_tail unmarshal c ops)).
+Proof. intros. apply emitted_once; [repeat split| | |]; assumption. Qed.
+Print Assumptions c31_each_packet_once_partial.
+
+(* both guards hold of a history with reordering, sequence-number wrap, multi-packet
+   frames and a final Flush that emits four samples; they fail on the witnesses of the
+   two refuted statements above *)
+Example c31_order_once_guards_nontrivial :
+  history_ok w_ord_ops /\
+  log_ok (evlog (fst (run fk_is_head fk_is_tail fk_unmarshal (wcfg 50) w_ord_ops))) /\
+  clean_log (evlog (fst (run fk_is_head fk_is_tail fk_unmarshal (wcfg 50) w_ord_ops))) /\
+  N.of_nat (List.length (built (fst (run fk_is_head fk_is_tail fk_unmarshal (wcfg 50) w_ord_ops)))) < 65536 /\
+  map (fun x => map p_seq (s_pkts x)) (snd (run fk_is_head fk_is_tail fk_unmarshal (wcfg 50) w_ord_ops))
+  = [[65534; 65535; 0]; [1; 2; 3]; [4; 5; 6]; [7]].
+Proof. exact w_ord_guards. Qed.
 
 (* ---------- clause 3: completeness after Flush ---------- *)
 
